@@ -68,6 +68,9 @@ def spy_crawls():
 
     def init(self, *a, **k):
         orig(self, *a, **k)
+        # what the routing table offered when the crawl was created: every node that is not BAD
+        self._g02_rt = [n.public_key.key_to_bin() for bucket in self.routing_table.trie.values()
+                        for n in list(bucket.nodes.values()) if n.status != 0]
         CRAWLS.append(self)
     community.Crawl.__init__ = init
     _SPIED = True
